@@ -43,6 +43,26 @@ SELFTEST = [
     {"mutation": "report_message_validation_result: forward_msg(.., HashSet::new())", "caught_by": "fwd/validation path passes the recorded duplicate senders"},
 ]
 
+# one-edit source variants for the thorough-tier sensitivity self-test (vrules/selftest.py); each must be reported
+MUTANTS = [
+    {"name": 'duplicate check inverted', "file": 'protocols/gossipsub/src/behaviour.rs',
+     "find": '        if !self.duplicate_cache.insert(msg_id.clone()) {',
+     "replace": '        if self.duplicate_cache.insert(msg_id.clone()) {',
+     "expect": 'recv/', "why": 'a first-seen message is dropped and every duplicate is delivered again'},
+    {"name": 'forward without excluding the sender', "file": 'protocols/gossipsub/src/behaviour.rs',
+     "find": '                raw_message,\n                Some(propagation_source),\n                HashSet::new(),',
+     "replace": '                raw_message,\n                None,\n                HashSet::new(),',
+     "expect": 'forwarding excludes the sender|passes Some', "why": 'message is sent back to the peer it came from'},
+    {"name": 'publish checks the duplicate cache the wrong way round', "file": 'protocols/gossipsub/src/behaviour.rs',
+     "find": '        if self.duplicate_cache.contains(&msg_id) {',
+     "replace": '        if !self.duplicate_cache.contains(&msg_id) {',
+     "expect": 'pub/', "why": 'fresh messages are refused, repeated ones re-sent'},
+    {"name": 'DuplicateCache::insert always reports new', "file": 'protocols/gossipsub/src/time_cache.rs',
+     "find": '            true\n        } else {\n            false\n        }',
+     "replace": '            true\n        } else {\n            true\n        }',
+     "expect": 'cache/insert reports true only for a new key', "why": 'duplicates are delivered again'},
+]
+
 
 def _loc(b):
     return "%s:%d" % (b.file, b.line)
